@@ -190,7 +190,9 @@ func runC08(c *ctxT) {
 				}
 			}
 			for pos := 1; pos <= w+1; pos++ {
-				cases = append(cases, c08Case{dual: dual, trunk: trunk, pos: pos, api: "conflict"}, c08Case{dual: dual, trunk: trunk, pos: pos, api: "lost"})
+				cases = append(cases, c08Case{dual: dual, trunk: trunk, pos: pos, api: "conflict"}, c08Case{dual: dual, trunk: trunk, pos: pos, api: "lost"},
+					// the write is refused and the full sync it makes the controller owe fails at its first step
+					c08Case{dual: dual, trunk: trunk, pos: pos, api: "conflict+describe"})
 			}
 		}
 	}
